@@ -13,7 +13,7 @@ for f in sorted(glob.glob(os.path.join(V, "seeded", "*", "meta.json"))):
     rows.append("| %s | %s | %s |" % (m["name"], needs, by))
 s = open(os.path.join(V, "DESIGN.md")).read()
 head = "| seeded change | needs (from its README) | caught by |"
-a = s.index("**Second round of seeded changes**")
+a = s.index("**Second and third rounds of seeded changes**")
 b = s.index("| seeded change | needs (from its README)", a)
 s = s[:b] + head + "\n|---|---|---|\n" + "\n".join(rows) + "\n"
 open(os.path.join(V, "DESIGN.md"), "w").write(s)
